@@ -377,6 +377,17 @@ def build_corpus(tier, seed):
     rng = random.Random(seed * 7919 + (1 if tier == "thorough" else 0))
     progs = []
     pid = 0
+    if tier == "miri":
+        # a handful of small programs for the Miri sub-checks (interpretation is ~3 orders of magnitude slower)
+        for prof in [(2, 2), (1, 3, 2), (2, 1)]:
+            progs.append((gen_profile_prog(pid, prof, rng), True))
+            pid += 1
+        while len(progs) < 7:
+            p = gen_rand_prog(pid, rng, max_branches=3, max_steps=3)
+            if len(list(p.all_acts())) <= 14 and len(p.branches) >= 2:
+                progs.append((p, True))
+                pid += 1
+        return progs
     if tier == "quick":
         sync_n, sync_d, asy_n, asy_d, nrand, njoin = 4, 3, 3, 2, 110, 40
     else:
